@@ -149,7 +149,7 @@ def _reference(sc):
         formatted = _fmt(orig) if not sc['state'].startswith('fails') else None
         res, tr, _ = faults.strace_run(b, args, d, trace_path=os.path.join(top, 'ref.trace'))
         probs = [(kind, 'no fault', desc) for kind, desc in judge(sc, orig, formatted, faults.snapshot(d), res, False, False)]
-        win = faults.window(tr, NAME)
+        win = faults.window(tr, '"' + NAME)
         points = []
         if not sc['state'].startswith('fails'):
             for _, name, occ, rest in win:
